@@ -1290,8 +1290,203 @@ class C12(Property):
         return {"kind": "reuse", "fmt": fmt, "inputs": inputs, "abandon": abandon}
 
     def generate(self, rng, tier):
-        k = rng.wchoice([(21, "chunk"), (7, "delim"), (10, "disk"), (15, "csv"), (8, "svm"), (33, "arff"), (6, "reuse")])
+        k = rng.wchoice([(21, "chunk"), (7, "delim"), (10, "disk"), (15, "csv"), (8, "svm"), (33, "arff"), (6, "reuse"), (5, "lit"), (4, "label")])
         return getattr(self, "gen_" + k)(rng, tier)
+
+    # .................................................................. lit (phase 4): numerals as CPython reads them; plain rows on both dense paths
+    NUM_BODIES = ["1_000", "1__0", "_1", "1_", "0_7", "007", "0", "12", "1_0.5", "1._5", "1_.5", ".5", "5.", ".", "1e5", "1E+5", "1e_5",
+                  "1_0e1_0", "e5", "1e", "1e+", "inf", "Infinity", "NaN", "nan", "iNf", "infinit", "in_f", "1.5e-3", "0x10", "1,5", "--1", "+-1", "1 2",
+                  "9_9.9_9", "_", "1_e5", "1e5_", "infinity_", "n_an", "3.", "+.5", "-5.e2", "1__5.0", "1.0_"]
+    NUM_WS = ["", "", "", " ", "\t", "  ", "\x0b", "\u2003", "\xa0", "\x1c"]
+
+    def gen_lit(self, rng, tier):
+        if rng.chance(0.6):
+            body = rng.choice(self.NUM_BODIES) if rng.chance(0.8) else "".join(rng.choice("0123456789_.e+-") for _ in range(rng.randint(1, 6)))
+            tok = rng.choice(self.NUM_WS) + rng.choice(["", "", "+", "-"]) + body + rng.choice(self.NUM_WS)
+            return {"kind": "lit", "sub": "num", "tok": tok}
+        n = rng.randint(2, 4)
+        alpha = "abz019.-?%{}_:;" + ("é" if rng.chance(0.3) else "")
+        vals = []
+        for _ in range(n):
+            v = "".join(rng.choice(alpha) for _ in range(rng.randint(1, 4)))
+            r = rng.below(100)
+            if r < 12:
+                v = v[:1] + " " + v[1:]           # a blank inside
+            elif r < 18:
+                v = "\t" + v                      # starts with a tab: the two paths differ (outside `plainTok`)
+            elif r < 22:
+                v = v + "\\"                      # a backslash: csv takes it for an escape, the fallback drops it
+            elif r < 25:
+                v = ""                            # empty value: IndexError in the fallback
+            vals.append(v)
+        return {"kind": "lit", "sub": "plain", "values": vals, "pad": rng.choice([0, 0, 1, 2])}
+
+    def eval_lit(self, case, driver):
+        from coba.pipes.readers import ArffReader, ArffLineReader
+        fails, tags = [], ["kind:lit-" + case["sub"]]
+        if case["sub"] == "num":
+            tok = case["tok"]
+            lines = ["@attribute a numeric", "@attribute b numeric", "@data", "'" + tok + "',1"]
+            try:
+                v = list(ArffReader().filter(lines))[0][0]
+                impl_f = {"ok": isinstance(v, float)}
+            except Exception as e:
+                impl_f = {"err": errname(e)}
+            bare = tok != "" and not any(ch.isspace() or ch in ",{}" for ch in tok)
+            impl_i = None
+            if bare:
+                try:
+                    impl_i = {"ok": sorted(ArffLineReader(False, 10 ** 9).filter("{" + tok + " 1}").keys())}
+                except Exception as e:
+                    impl_i = {"err": errname(e)}
+            tags.append("float:" + ("accepted" if impl_f == {"ok": True} else "rejected"))
+            if "_" in tok:
+                tags.append("underscore")
+            if tok != tok.strip():
+                tags.append("surrounding-whitespace")
+            if tok.strip().lstrip("+-").lower() in ("inf", "infinity", "nan"):
+                tags.append("inf-nan")
+            if tok.strip()[:1] == "+":
+                tags.append("leading-plus")
+            model = None
+            if driver is not None:
+                ans = driver.ask({"op": "numlit", "tok": cps(tok)})
+                model = ans
+                want_f = {"ok": True} if ans["float"] else {"err": "ValueError"}
+                if impl_f != want_f:
+                    fails.append(F("A", "ArffReader numeric value %r: implementation %r, model isFloatLitPy %r" % (tok, impl_f, ans["float"]), "A:numlit-float"))
+                if impl_i is not None:
+                    tags.append("int:" + ("accepted" if "ok" in impl_i else "rejected"))
+                    k = ans["int"]
+                    want_i = {"err": "ValueError"} if k is None else ({"ok": [k]} if 0 <= k < 10 ** 9 else {"err": "CobaException"})
+                    if impl_i != want_i:
+                        fails.append(F("A", "sparse ARFF index %r: implementation %r, model parseIntPy %r" % (tok, impl_i, k), "A:numlit-int"))
+                if "_" not in tok and not any("\x1c" <= ch <= "\x1f" for ch in tok) and (ans["int"] != ans["int0"] or ans["float"] != ans["float0"]):
+                    fails.append(F("C", "model: parseIntPy/isFloatLitPy differ from parseInt/isFloatLit on the underscore-free %r" % tok, "C:numlit-conservative"))
+            return {"fails": fails, "nontrivial": True, "tags": tags, "impl": {"float": impl_f, "int": impl_i}, "model": model}
+        vals, pad = case["values"], case["pad"]
+        n = len(vals)
+        line = ("," + " " * pad).join(vals)
+        first = "'\"'" + ",x" * (n - 1)
+
+        def run(f):
+            try:
+                return {"ok": [str(x) for x in f()]}
+            except Exception as e:
+                return {"err": errname(e)}
+        fast = run(lambda: ArffLineReader(True, n).filter(line))
+
+        def slow_f():
+            lr = ArffLineReader(True, n)
+            lr.filter(first)
+            return lr.filter(line)
+        slow = run(slow_f)
+        plain = all(v != "" and not v[0].isspace() and not any(ch in v for ch in ",'\"\\\r\n") for v in vals)
+        tags.append("plain-row" if plain else "outside-plain")
+        tags.append("paths:" + ("agree" if fast == slow else "differ"))
+        if plain:
+            if fast != {"ok": vals}:
+                fails.append(F("B", "ArffLineReader(True,%d).filter(%r) gives %r; written %r" % (n, line, fast, vals), "lit:plain-row-fast-path"))
+            if slow != {"ok": vals}:
+                fails.append(F("B", "ArffLineReader(True,%d) after the row %r (both quote characters: fallback parser), .filter(%r) gives %r; written %r"
+                               % (n, first, line, slow, vals), "lit:plain-row-after-fallback-switch"))
+        model = None
+        if driver is not None:
+            ans = driver.ask({"op": "plainline", "values": [cps(v) for v in vals], "pad": pad, "first": cps(first)})
+            model = ans
+            mf, ms = self._lines_or_err(ans["fast"]), self._lines_or_err(ans["slow"])
+            if uncps(ans["line"]) != line and plain:
+                fails.append(F("A", "plainRowLine %r differs from the harness line %r" % (uncps(ans["line"]), line), "A:plain-writer"))
+            elif uncps(ans["line"]) == line:
+                if not ans["advanced"]:
+                    fails.append(F("A", "model: reader not in fallback mode after %r" % first, "A:plain-advanced"))
+                if fast != mf:
+                    fails.append(F("A", "ArffLineReader fast path on %r: implementation %r, model %r" % (line, fast, mf), "A:plain-fast"))
+                if slow != ms:
+                    fails.append(F("A", "ArffLineReader fallback on %r: implementation %r, model %r" % (line, slow, ms), "A:plain-fallback"))
+                if ans["hyp"]:
+                    tags.append("plain:theorem-hypotheses-hold")
+                    if not (mf == ms == self._lines_or_err(ans["loop"]) == {"ok": vals}):
+                        fails.append(F("C", "model: fast %r, fallback %r, advLoop %r on plain row %r" % (mf, ms, ans["loop"], vals), "C:plain-row-paths-agree"))
+        return {"fails": fails, "nontrivial": True, "tags": tags, "impl": {"fast": fast, "slow": slow}, "model": model}
+
+    # .................................................................. label (round g): the labelled reading pipelines
+    def gen_label(self, rng, tier):
+        n = rng.randint(2, 4)
+        names = ["a", "b", "y", "z"][:n]
+        nrows = rng.randint(1, 4)
+        if rng.chance(0.5):
+            rows = [[rng.choice([0, 0, 0, 1, 2, 5]) for _ in range(n)] for _ in range(nrows)]
+            if rng.chance(0.5):
+                rows[0] = [0] * n                      # falsy first row: `{}`
+            if rng.chance(0.3):
+                rows[-1] = [0] * n
+            return {"kind": "label", "fmt": "arff-sparse", "names": names, "rows": rows, "label": rng.choice(names[:1] + names)}
+        rows = [[rng.choice(["u", "v", "w", "1", "0", "2.5"]) for _ in range(n)] for _ in range(nrows)]
+        header = rng.chance(0.4)
+        label = rng.choice([0, 0, 1, n - 1, -1] + ([names[0], names[-1]] if header else []))
+        return {"kind": "label", "fmt": "csv", "names": names, "rows": rows, "label": label, "header": header}
+
+    def eval_label(self, case, driver):
+        """(B) a table read through the labelled public pipelines (reader | LabelRows, SupervisedSimulation over
+        ArffSource / CsvSource) gives one interaction per written row, the written label, and the other written cells"""
+        from coba.pipes import ArffReader, CsvReader, LabelRows, Pipes, ListSource
+        from coba.environments import SupervisedSimulation, ArffSource, CsvSource
+        fails, tags = [], ["kind:label", "fmt:" + case["fmt"], "label:%r" % (case["label"],)]
+        names, rows, label = case["names"], case["rows"], case["label"]
+        if case["fmt"] == "arff-sparse":
+            lines = ["@relation r"] + ["@attribute %s numeric" % nm for nm in names] + ["@data"]
+            for r in rows:
+                lines.append("{" + ",".join("%d %d" % (j, v) for j, v in enumerate(r) if v != 0) + "}")
+            if not any(rows[0]):
+                tags.append("first-row-empty-braces")
+            li = names.index(label)
+            if li == 0:
+                tags.append("label-is-column-0")
+            want = [({nm: float(v) for j, (nm, v) in enumerate(zip(names, r)) if v != 0 and j != li}, float(r[li])) for r in rows]
+            want_ctx = [w[0] for w in want]
+
+            def piped():
+                return [(dict(r.feats.items()), float(r.label)) for r in Pipes.join(ArffReader(), LabelRows(label, "r")).filter(list(lines))]
+
+            def sim():
+                return [dict(i["context"].items()) for i in SupervisedSimulation(ArffSource(ListSource(list(lines))), label, "r").read()]
+            tipe = "r"
+        else:
+            lines = ([",".join(names)] if case["header"] else []) + [",".join(r) for r in rows]
+            li = names.index(label) if isinstance(label, str) else (label if label >= 0 else len(names) + label)
+            if li == 0:
+                tags.append("label-is-column-0")
+            if label == 0:
+                tags.append("label_col=0")
+            want = [([v for j, v in enumerate(r) if j != li], r[li]) for r in rows]
+            want_ctx = [w[0] for w in want]
+
+            def piped():
+                return [(list(r.feats), r.label) for r in Pipes.join(CsvReader(has_header=case["header"]), LabelRows(label, "c")).filter(list(lines))]
+
+            def sim():
+                return [list(i["context"]) for i in SupervisedSimulation(CsvSource(ListSource(list(lines)), has_header=case["header"]), label, "c").read()]
+            tipe = "c"
+
+        def run(f):
+            try:
+                return {"ok": f()}
+            except Exception as e:
+                return {"err": errname(e), "msg": str(e)[:100]}
+        got_p, got_s = run(piped), run(sim)
+        fmt = case["fmt"]
+        if got_p != {"ok": want}:
+            fails.append(F("B", "%s | LabelRows(%r,%r) on %r gives %r; the file says (features, label) %r" % ("ArffReader()" if tipe == "r" else "CsvReader(has_header=%r)" % case.get("header"), label, tipe, lines, got_p, want),
+                           "label:%s:reader-labelrows-differs%s" % (fmt, ":first-row-empty" if fmt != "csv" and not any(rows[0]) else "")))
+        if got_s != {"ok": want_ctx}:
+            fails.append(F("B", "SupervisedSimulation(%s(ListSource(lines)), %r, %r).read() on %r gives contexts %r; the file says %r" % ("ArffSource" if tipe == "r" else "CsvSource", label, tipe, lines, got_s, want_ctx),
+                           "label:%s:supervised-simulation-differs%s" % (fmt, ":label-index-0" if label == 0 else "")))
+        return {"fails": fails, "nontrivial": True, "tags": tags, "impl": {"piped": got_p, "sim": got_s}, "model": None}
+
+    @staticmethod
+    def _lines_or_err(x):
+        return {"err": x["err"]} if "err" in x else {"ok": [uncps(l) for l in x["ok"]]}
 
     def search(self, rng, tier):
         k = rng.wchoice([(30, "chunk"), (10, "delim"), (10, "disk"), (20, "csv"), (10, "svm"), (20, "arff")])
@@ -1381,6 +1576,16 @@ class C12(Property):
                  "dense": d2, "sp": {"sseed": 2, "style": "weka", "sep": "\t"}, "via": {"mode": "lines"}}]})
         one = {"cols": [{"name": "a", "type": "numeric"}], "rows": [["1"], [None]]}
         cs.append({"kind": "arff", "table": one, "dense": True, "sp": {"sseed": 1, "style": "weka"}, "via": {"mode": "lines"}})
+        # round g: the coordinator's two demos (falsy first sparse row; label_col=0) through the labelled pipelines
+        cs.append({"kind": "label", "fmt": "arff-sparse", "names": ["a", "b", "y"], "rows": [[0, 0, 0], [1, 0, 3], [0, 2, 0], [4, 5, 6]], "label": "y"})
+        cs.append({"kind": "label", "fmt": "arff-sparse", "names": ["a", "b", "y"], "rows": [[1, 0, 3], [0, 2, 0], [0, 0, 0]], "label": "a"})
+        cs.append({"kind": "label", "fmt": "csv", "names": ["a", "b", "y"], "rows": [["spam", "1.5", "free"], ["ham", "0.25", "lunch"], ["spam", "3", "win"]], "label": 0, "header": False})
+        cs.append({"kind": "label", "fmt": "csv", "names": ["a", "b", "y"], "rows": [["spam", "1.5", "free"], ["ham", "0.25", "lunch"]], "label": -1, "header": False})
+        cs.append({"kind": "label", "fmt": "csv", "names": ["a", "b", "y"], "rows": [["spam", "1.5", "free"], ["ham", "0.25", "lunch"]], "label": "a", "header": True})
+        for tok in ["1_000", "1__0", "_1", "1_", "+1", " 12 ", "inf", "-Infinity", "NaN", "1_0.5e1_0", "1._5", "1e_5", ".", "+.5", "\u20037", "0x10"]:
+            cs.append({"kind": "lit", "sub": "num", "tok": tok})
+        for vals, pad in [(["a", "b"], 0), (["a b", "?", "{x}"], 1), (["\tx", "y"], 0), (["x\\", "y"], 0), (["", "y"], 2), (["%", "1.5", "é"], 2)]:
+            cs.append({"kind": "lit", "sub": "plain", "values": vals, "pad": pad})
         return cs
 
     def exhaustive(self, tier):
@@ -1910,6 +2115,8 @@ class C12(Property):
                 fails.append(F("C", "model: arffAttrs(write attrs) = %r, written %r" % (ans["model"], ans["want"]), "C:arff_header_roundtrip"))
         if mine == theirs and case["dense"]:
             self._arff_table_model(case, lines, case_spec, driver, fails, tags)
+        if mine == theirs and not case["dense"]:
+            self._arff_sparse_table_model(case, lines, case_spec, driver, fails, tags)
 
     def _arff_table_model(self, case, lines, spec, driver, fails, tags):
         """(A) the spec's whole-file writer vs the harness file (attribute, @data and data lines) and
@@ -1944,6 +2151,63 @@ class C12(Property):
             tags.append("arfftable:theorem-hypotheses-hold")
             if ans["model"] != {"ok": ans["want"]}:
                 fails.append(F("C", "model: arffReadN(whole written file) = %r, written %r" % (ans["model"], ans["want"]), "C:arff_dense_table_roundtrip"))
+
+    def _arff_sparse_table_model(self, case, lines, spec, driver, fails, tags):
+        """phase 4: (A) the spec's whole sparse file writer vs the harness file; (C) arff_sparse_table_roundtrip and
+        arff_sparse_missing_flag under their hypotheses; (A) a variant of the same table in which some string / nominal
+        cells are left out (written by the spec's writer) goes through the REAL ArffReader and must come back as
+        `sparseRowOut` says (written items, then the default entries of the omitted columns)"""
+        t, sp = case["table"], case["sp"]
+        sep = sp.get("sparse_sep", ",")
+        if sep not in (",", ", ") or sp.get("sparse_pad") or not t["rows"]:
+            return
+        rows, rows_omit, omitted = [], [], 0
+        for i, row in enumerate(t["rows"]):
+            cells, cells2 = [], []
+            for j, (c, v) in enumerate(zip(t["cols"], row)):
+                if sparse_is_default(c, v) and not (sp.get("sparse_explicit_zero") and _dec(sp, "ez", i, j).chance(0.5)):
+                    continue
+                w = arff_cell(c, v, sp, ("cell", i, j))
+                raw = "?" if v is None else v
+                if w != raw:
+                    tags.append("arffsparsetable:quoted-value-outside-spec")
+                    return
+                kind = "missing" if v is None else {"numeric": "num", "nominal": "cat"}.get(c["type"], "str")
+                cell = {"d": cps(str(j)), "k": kind, "t": cps(raw)}
+                cells.append(cell)
+                if c["type"] != "numeric" and _dec(sp, "omit", i, j).chance(0.35):
+                    omitted += 1
+                else:
+                    cells2.append(cell)
+            rows.append({"pad": len(sep) - 1, "cells": cells})
+            rows_omit.append({"pad": len(sep) - 1, "cells": cells2})
+        dkw = [l.strip() for l in lines if l.strip().lower() == "@data"][0]
+        req = {"op": "sparsetable", "q": spec["q"], "also": spec["also"], "dkw": cps(dkw), "attrs": spec["attrs"]}
+        ans = driver.ask(dict(req, rows=rows))
+        k = [i for i, l in enumerate(lines) if l.strip().lower() == "@data"][0]
+        mine = [l.strip() for l in lines[:k] if l.strip().lower().startswith("@attribute")] + [dkw] + \
+               [l.strip() for l in lines[k + 1:] if l.strip() and not l.strip().startswith("%")]
+        theirs = [uncps(l) for l in ans["lines"]]
+        if mine != theirs:
+            fails.append(F("A", "sparse file of the spec's writer %r differs from the harness writer %r" % (theirs, mine), "A:arff-sparse-table-writer"))
+            return
+        if not ans["hyp"]:
+            tags.append("arffsparsetable:hypotheses-fail")
+            return
+        tags.append("arffsparsetable:theorem-hypotheses-hold")
+        if ans["model"] != {"ok": ans["want"]}:
+            fails.append(F("C", "model: arffReadN(whole written sparse file) = %r, written %r" % (ans["model"], ans["want"]), "C:arff_sparse_table_roundtrip"))
+        if any(a != b for a, b in ans["flags"]):
+            fails.append(F("C", "model: sparseMissing of the written lines vs any-missing: %r" % (ans["flags"],), "C:arff_sparse_missing_flag"))
+        if any(b for _, b in ans["flags"]):
+            tags.append("arffsparsetable:missing-row")
+        if omitted:
+            ans2 = driver.ask(dict(req, rows=rows_omit))
+            if ans2["hyp"]:
+                tags.append("arffsparsetable:omitted-cells-default-entries")
+                lines2 = [uncps(l) for l in ans2["lines"]]
+                impl2 = run_arff(lines2, False)
+                self._arff_read_model(lines2, False, impl2, driver, fails, tags, ans={"ok": ans2["want"]}, sig="A:arff-sparse-table-defaults")
 
     def _arff_sparse_model(self, case, lines, driver, fails, tags):
         """(A) ArffLineReader(False,n) + ArffDataReader._sparse per data line vs `arffSparseLine`/`sparseMissing`;
@@ -2041,6 +2305,29 @@ class C12(Property):
     # ------------------------------------------------------------------ shrinking / replay
     def shrink(self, case):
         k = case["kind"]
+        if k == "label":
+            rs = case["rows"]
+            for i in range(len(rs)):
+                if len(rs) > 1:
+                    yield dict(case, rows=rs[:i] + rs[i + 1:])
+            return
+        if k == "lit":
+            if case["sub"] == "num":
+                t = case["tok"]
+                for i in range(len(t)):
+                    if len(t) > 1:
+                        yield dict(case, tok=t[:i] + t[i + 1:])
+            else:
+                vs = case["values"]
+                if case["pad"]:
+                    yield dict(case, pad=0)
+                for i in range(len(vs)):
+                    if len(vs) > 2:
+                        yield dict(case, values=vs[:i] + vs[i + 1:])
+                    if len(vs[i]) > 1:
+                        yield dict(case, values=vs[:i] + [vs[i][:-1]] + vs[i + 1:])
+                        yield dict(case, values=vs[:i] + [vs[i][1:]] + vs[i + 1:])
+            return
         if k == "reuse":
             ins, ab = case["inputs"], case["abandon"]
             for i in range(len(ins)):
@@ -2157,6 +2444,18 @@ class C12(Property):
 
     def snippet(self, case):
         k = case["kind"]
+        if k == "label":
+            return "# labelled pipeline case (see the failure text for the exact call): %r\n" % (case,)
+        if k == "lit" and case["sub"] == "num":
+            return ("from coba.pipes.readers import ArffReader\n"
+                    "print(list(ArffReader().filter(['@attribute a numeric','@attribute b numeric','@data',%r]))[0][0])\n" % ("'" + case["tok"] + "',1"))
+        if k == "lit":
+            n = len(case["values"])
+            line = ("," + " " * case["pad"]).join(case["values"])
+            return ("from coba.pipes.readers import ArffLineReader\n"
+                    "print(ArffLineReader(True,%d).filter(%r))\n"
+                    "lr = ArffLineReader(True,%d); lr.filter(%r); print(lr.filter(%r))   # written: %r\n"
+                    % (n, line, n, "'\"'" + ",x" * (n - 1), line, case["values"]))
         if k == "reuse":
             fmt = case["fmt"]
             first = case["inputs"][0]
